@@ -176,6 +176,18 @@ def main() -> int:
                     if eff.startswith("content_type"):  # (what is inside the body is C03's concern; here: was this media type handled at all)
                         vd.violation("request_media_type_not_handled_by_function", f"{a['module']}.{variant}: body documented as {a['x']['body']['media']}: {det}", dict(w, action={k: v for k, v in a.items() if k != 'x'}))
                         break
+        # ---- every endpoint handed to the templates has a module of its own that is *its* function (method and path template), under each of its tags
+        for e in man.get("endpoints") or []:
+            rel = f"api/{e['tag']}/{e['module']}.py"
+            src = tree.get(rel)
+            ev.count("endpoint_modules_identified")
+            if not isinstance(src, str):
+                vd.violation("endpoint_module_missing", f"{e['method'].upper()} {e['path']}: no module {rel} although the operation was handed to the templates", w)
+                continue
+            mm = re.search(r'"method": "(\w+)"', src)
+            mu = re.search(r'"url": f?"([^"]*)"', src)
+            if not mm or not mu or mm.group(1).lower() != e["method"].lower() or skeleton(mu.group(1).split('".format')[0]) != skeleton(e["path"]):
+                vd.violation("endpoint_module_is_another_operation", f"{rel} should be {e['method'].upper()} {e['path']} but sends {mm.group(1) if mm else None} {mu.group(1) if mu else None}", dict(w, file=rel))
         # ---- endpoint files
         for tag in {e["tag"] for e in man.get("endpoints") or []}:
             want = len([e for e in man["endpoints"] if e["tag"] == tag])
